@@ -384,9 +384,17 @@ def runLive07 (kv : List (String × String)) : IO Res := do
       k := k + 1
   if compared > 0 then tags := "bytes.compared" :: tags
   -- (2) every application region, exactly
+  let readableAt (a : Nat) : Bool := lc.maps.any (fun l => l.s ≤ a && a < l.e && l.perms.testBit 0)
   for (p, l) in lc.cfg.app do
-    if !ml.any (fun m => m.start == p && m.size == l) then
-      return .propfail s!"application region ({p},{l}) is not in the memory list with that address and length" tags
+    -- a region that runs into memory that cannot be read is recorded as far as it can be read (page granular)
+    let l' := Id.run do
+      let mut a := p
+      while a < p + l && readableAt a do
+        a := min (p + l) ((a / 4096 + 1) * 4096)
+      return a - p
+    if l' < l then tags := "app.short" :: tags
+    if !ml.any (fun m => m.start == p && m.size == l') then
+      return .propfail s!"application region ({p},{l}) is not in the memory list with that address and {if l' < l then s!"its readable length {l'}" else "length"}" tags
   -- (3) every non-empty thread stack
   for (s, z, rva) in stackStarts do
     if !ml.any (fun m => m.start == s && m.size == z && m.rva == rva) then
